@@ -379,6 +379,30 @@ def h_add_ramp(L, plane, tx, ty):
     return plane
 
 
+def h_reversed_fields(L, w):
+    """The same wavefront with its fields listed in the opposite order (public constructor + public attribute): a coherent sum
+    does not depend on the order of its terms."""
+    out = L.Wavefront.empty(wavelength=w.wavelength, pixelscale=None if w.pixelscale is None else tuple(w.pixelscale),
+                            focal_length=w.focal_length, shape=w.shape, ptype=w.ptype)
+    out.data = list(w.data)[::-1]
+    return out
+
+
+def check_same_fields(L, wa, wb):
+    """Two propagations of the same set of fields (listed in different orders): the same windows are evaluated, with the same values."""
+    out = {'premise': True}
+    fa = sorted((tuple(int(x) for x in f.offset), tuple(f.shape)) for f in wa.data)
+    fb = sorted((tuple(int(x) for x in f.offset), tuple(f.shape)) for f in wb.data)
+    out['same_windows'] = fa == fb
+    out['nfields'] = [len(wa.data), len(wb.data)]
+    A, B = wa.field, wb.field
+    ref = max(float(np.max(np.abs(B))) if B.size else 0.0, 1e-300)
+    out['ok'] = A.shape == B.shape and (A.size == 0 or float(np.max(np.abs(A - B))) <= 1e-9 * ref)
+    out['detail'] = 'fields evaluated: %s vs %s in the other order; max |diff| %.3g (max |field| %.3g)' % (
+        len(wa.data), len(wb.data), float(np.max(np.abs(A - B))) if A.shape == B.shape and A.size else float('nan'), ref)
+    return out
+
+
 def h_refit(L, plane, add_opd):
     """History carrier, one atomic step for the minimiser: fit in place, update the OPD, fit in place again."""
     plane.fit_tilt(inplace=True)
@@ -389,6 +413,8 @@ def h_refit(L, plane, add_opd):
 
 HELPERS = {
     'h.refit': h_refit,
+    'h.reversed_fields': h_reversed_fields,
+    'check.same_fields': check_same_fields,
     'h.add_ramp': h_add_ramp,
     'h.layout': h_layout,
     'h.dispersive_ramp': h_dispersive_ramp,
@@ -478,6 +504,13 @@ class ViewsHooks(Hooks):
             # the same convention on the plane's side: a plane whose arrays hold a single element acts as a scalar plane
             pl = self.pre[0]
             one = any(np.ndim(x) >= 2 and np.size(x) == 1 for x in (pl.amplitude, pl.opd, pl.mask))
+            mk = np.asarray(pl.mask)
+            if not one and mk.ndim >= 2:
+                # ... or one of whose segments covers a single sample (its cropped phasor is a one-element array): masks that
+                # come out of lentil's own rescale, or out of the minimiser's shape shrinking, can degenerate that way
+                for seg in (mk if mk.ndim == 3 else [mk]):
+                    if seg.any() and np.any(seg, axis=1).sum() == 1 and np.any(seg, axis=0).sum() == 1:
+                        one = True
         if ev.get('id') and (src or one):
             self.tainted.add(ev['id'])
             it.probe('one_element_field')
@@ -485,8 +518,8 @@ class ViewsHooks(Hooks):
     def before(self, it, i, ev):
         self.pre = None
         fn = ev['fn']
-        if fn in ('Plane.multiply', 'w*p', 'p*w'):
-            p, w = (it.resolve(ev['a'][0]), it.resolve(ev['a'][1])) if fn != 'w*p' else (it.resolve(ev['a'][1]), it.resolve(ev['a'][0]))
+        if fn in ('Plane.multiply', 'w*p', 'p*w', 'w*=p'):
+            p, w = (it.resolve(ev['a'][0]), it.resolve(ev['a'][1])) if fn not in ('w*p', 'w*=p') else (it.resolve(ev['a'][1]), it.resolve(ev['a'][0]))
             conflict = (p.pixelscale is not None and w.pixelscale is not None and
                         tuple(float(x) for x in p.pixelscale) != tuple(float(x) for x in w.pixelscale))
             self.pre = (p, w, it.dig(p), it.dig(w), conflict)
@@ -506,6 +539,8 @@ class ViewsHooks(Hooks):
                 it.fault('refuse')
                 it.probe('check:px')
                 it.probe('px_conflict')
+                if tag.get('bad_kind') in ('Tilt', 'DispersiveTilt'):
+                    it.probe('px_conflict_tilt_plane')
                 if out.ok:
                     it.violate('C07.px', {'what': 'not-refused'}, 'a plane with pixel scale %r was applied to a wavefront with pixel scale %r'
                                % (p.pixelscale, None if w.pixelscale is None else tuple(w.pixelscale)), i)
@@ -578,6 +613,8 @@ class ViewsHooks(Hooks):
                 it.probe('attributes:' + tag['combo'])
             if tag.get('slit'):
                 it.probe('slit_plane')
+            if tag.get('rescaled'):
+                it.probe('rescaled_plane')
             if not out.value['ok']:
                 it.violate('C07.phasor', {'what': 'pointwise-phasor', 'nplanes': min(tag.get('nplanes', 1), 3)}, out.value['detail'], i)
         elif fn == 'check.phasor' and not out.ok:
@@ -620,7 +657,7 @@ class ViewsScenario(OpticsBase):
     must_hit = ['three_fields_overlap', 'clip:lo0', 'clip:hi0', 'clip:lo1', 'clip:hi1', 'clip:outside', 'scalar_plane',
                 'two_segmented_planes', 'px_conflict', 'default_plane', 'nfields:1', 'nfields:3+', 'disjoint_pair_bridged',
                 'phasor_after_caller_write', 'phasor_after_attribute_update', 'slit_plane', 'plane_reused_at_another_sampling',
-                'views_reread_after_caller_write']
+                'views_reread_after_caller_write', 'rescaled_plane', 'px_conflict_tilt_plane']
     probe_names = must_hit + ['coldwarm_audit', 'attributes:scalar-amplitude', 'attributes:no-opd', 'attributes:mask-only', 'attributes:typed-mask',
                               'attributes:layouts']
 
@@ -650,8 +687,8 @@ class ViewsScenario(OpticsBase):
             b.E('check.views', ['@' + wid], k, t=t, tag='v')
 
         def mul(pid, wid, **t):
-            fn = rng.choice(['Plane.multiply', 'w*p', 'p*w'])
-            a = ['@' + wid, '@' + pid] if fn == 'w*p' else ['@' + pid, '@' + wid]
+            fn = rng.choice(['Plane.multiply', 'w*p', 'p*w', 'w*=p'])
+            a = ['@' + wid, '@' + pid] if fn in ('w*p', 'w*=p') else ['@' + pid, '@' + wid]
             return b.E(fn, a, t=dict({'expect': 'ok'}, **t), tag='w')
 
         # ---- none-typed planes first (only legal on a none-typed wavefront)
@@ -718,6 +755,15 @@ class ViewsScenario(OpticsBase):
                 amp_plane = (p, sname) if 'mask' not in kw or rng.random() < 0.5 else None
                 if k > 1:
                     flags['nseg'] += 1
+                if j == 0 and not spread and combo == 'all' and (rng.random() < 0.15 or force.get('rescaled')):
+                    # the plane a caller gets back from rescale / resample is a plane like any other (its sampling is its own)
+                    if rng.random() < 0.5:
+                        p = b.E('Plane.rescale', ['@' + p, rng.choice([2.0, 1.5, 0.75])], tag='p')
+                    else:
+                        p = b.E('Plane.resample', ['@' + p, ph['dx'] / rng.choice([2.0, 1.5])], tag='p')
+                    opd_ref = None
+                    amp_plane = None
+                    flags['rescaled'] = True
                 if rng.random() < 0.25 or spread:
                     p = b.E('Plane.fit_tilt', ['@' + p], tag='p')
                     opd_ref = None      # the fitted copy no longer views the caller's array
@@ -727,8 +773,11 @@ class ViewsScenario(OpticsBase):
             w_before = w
             w = mul(p, w)
             b.E('check.phasor', ['@' + w, ['@' + x for x in planes], ph['wl']],
-                t={'nplanes': len(planes), 'scalar_plane': flags['scalar'], 'two_segmented': flags['nseg'] >= 2, 'combo': flags.pop('combo', None)}, tag='c')
+                t={'nplanes': len(planes), 'scalar_plane': flags['scalar'], 'two_segmented': flags['nseg'] >= 2, 'combo': flags.pop('combo', None),
+                   'rescaled': flags.get('rescaled', False)}, tag='c')
             views(w)
+            if flags.get('rescaled'):
+                break           # the wavefront now has the rescaled plane's sampling: no further pupil-sampled planes
             if amp_plane is not None and (rng.random() < 0.25 or force.get('caller_write')):
                 # the caller assigns a new amplitude / OPD through the documented attributes and sends the wavefront through again
                 what = rng.choice(['amplitude', 'opd'])
@@ -769,8 +818,19 @@ class ViewsScenario(OpticsBase):
                 w = w2
             if rng.random() < 0.25:
                 # a plane whose pixel scale disagrees with the wavefront's: must be refused, operands untouched (F5)
-                bad = b.E('Pupil', None, {'amplitude': 1.0, 'pixelscale': ph['dx'] * rng.choice([0.5, 1.25, 1 + 3e-6, 1 - 2e-3]), 'focal_length': ph['f']}, tag='p')
-                b.E('Plane.multiply', ['@' + bad, '@' + w], t={'expect': 'refuse'}, tag='x')
+                badpx = ph['dx'] * rng.choice([0.5, 1.25, 1 + 3e-6, 1 - 2e-3])
+                kind_ = rng.choice(['Pupil', 'Pupil', 'Tilt', 'DispersiveTilt', 'Plane'])
+                if kind_ == 'Pupil':
+                    bad = b.E('Pupil', None, {'amplitude': 1.0, 'pixelscale': badpx, 'focal_length': ph['f']}, tag='p')
+                elif kind_ == 'Tilt':
+                    bad = b.E('Tilt', None, {'x': 1e-6, 'y': -1e-6, 'pixelscale': rng.choice([badpx, [ph['dx'], badpx]])}, tag='p')
+                elif kind_ == 'DispersiveTilt':
+                    bad = b.E('DispersiveTilt', None, {'trace': [0.5, 0.0], 'dispersion': [1e-3, ph['wl'] - 2e-8], 'pixelscale': badpx}, tag='p')
+                else:
+                    bad = b.E('Plane', None, {'ptype': 'pupil', 'pixelscale': [badpx, ph['dx']]}, tag='p')
+                b.E(rng.choice(['Plane.multiply', 'w*p', 'p*w']), ['@' + bad, '@' + w], t={'expect': 'refuse', 'bad_kind': kind_}, tag='x')
+                if b.events[-1]['fn'] == 'w*p':
+                    b.events[-1]['a'] = b.events[-1]['a'][::-1]
         # ---- propagation, image plane, propagation back
         if rng.random() < 0.8 or force.get('propagate'):
             os_ = rng.choice([1, 2, 3])
@@ -835,7 +895,8 @@ class ViewsScenario(OpticsBase):
         cases = [{'S': [7, 8], 'npup': 2, 'seg': True, 'propagate': True, 'acc': 'offside', 'default': True, 'spread': True},
                  {'S': [6, 6], 'npup': 3, 'seg': True, 'propagate': True, 'acc': 'tiny', 'default': True},
                  {'S': [9, 5], 'npup': 2, 'seg': True, 'propagate': True, 'acc': 'smaller', 'default': True, 'slit': True, 'reuse_tilt': True},
-                 {'S': [5, 9], 'npup': 1, 'seg': False, 'propagate': True, 'acc': 'larger', 'default': True, 'caller_write': True}]
+                 {'S': [5, 9], 'npup': 1, 'seg': False, 'propagate': True, 'acc': 'larger', 'default': True, 'caller_write': True},
+                 {'S': [8, 7], 'npup': 1, 'seg': True, 'propagate': True, 'acc': 'same', 'rescaled': True, 'combo': 'all'}]
         for j, force in enumerate(cases * 3):
             rng = random.Random(verif_seed * 67867967 + j)
             world = {'shapes': {}, 'cache': 32, 'rng_seed': 1, 'phys': self.phys(rng), 'K': 1}
@@ -934,11 +995,20 @@ class TiltHooks(Hooks):
             it.probe('check:window')
             if not v['ok']:
                 it.violate('C04.shift', {'what': 'window-placement', 'square_pixels': tag.get('square', True)}, v['detail'], i)
+        elif fn == 'check.same_fields':
+            it.probe('check:field_order')
+            it.fault('reorder')
+            if tag.get('far_segment'):
+                it.probe('segment_off_detector')
+            if not v['same_windows'] or not v['ok']:
+                it.violate('C04.equiv', {'carrier': 'field-order', 'what': 'fields-in-reverse-order', 'far_segment': bool(tag.get('far_segment'))}, v['detail'], i)
         elif fn == 'check.trace':
             it.probe('check:trace')
             it.probe('trace_order:%d/%d' % tuple(v['order']))
             if v.get('negative_arc'):
                 it.probe('trace_negative_arc' + ('_high_order' if v['order'][0] > 1 else ''))
+            if tag.get('after_update'):
+                it.probe('trace_after_update')
             if not v['on_trace']:
                 it.violate('C04.trace', {'what': 'off-trace', 'trace_order': min(v['order'][0], 2), 'dispersion_order': min(v['order'][1], 2)}, v['detail'], i)
             if not v['arc_ok']:
@@ -967,7 +1037,7 @@ class TiltScenario(OpticsBase):
                 'carrier:wavefront-tilt', 'carrier:fit', 'carrier:refit', 'carrier:dispersive', 'carrier:wavefront-tilt+fit',
                 'carrier:tilt-planes-before-pupil', 'carrier:fan-out', 'carrier:same-wavefront-resampled', 'carrier:same-tilt-twice',
                 'trace_order:1/1', 'carrier:fit-inplace', 'noncontiguous_opd', 'carrier:dispersive-high-order', 'trace_negative_arc',
-                'trace_negative_arc_high_order', 'dispersive_blue', 'dispersive_red', 'pupil_per_axis_pixels', 'output_mask', 'fit:fit-rescale-refit']
+                'trace_negative_arc_high_order', 'dispersive_blue', 'dispersive_red', 'pupil_per_axis_pixels', 'output_mask', 'fit:fit-rescale-refit', 'segment_off_detector', 'trace_after_update']
     probe_names = must_hit + ['coldwarm_audit', 'no_common_samples', 'trace_order:2/1', 'trace_order:1/2', 'trace_order:2/2', 'trace_order:3/1']
 
     def program(self, rng, world, force=None):
@@ -996,6 +1066,12 @@ class TiltScenario(OpticsBase):
 
         gx, gy = angle(dur), angle(duc)
         segt = [[angle(dur) * rng.choice([0, 0.3, 1]), angle(duc) * rng.choice([0, 0.3, 1])] for _ in range(k)] if k > 1 and mag != 'beyond' else [[0.0, 0.0]]
+        far_seg = None
+        if k > 1 and mag != 'beyond' and (rng.random() < 0.25 or force.get('far_segment')):
+            # one segment steered off the detector altogether (its chip is evaluated nowhere); the others must still be imaged
+            far_seg = rng.randrange(k)
+            big = rng.uniform(1.5, 3.0) * max(n) * os_
+            segt[far_seg] = [rng.choice([-1, 1]) * big * dur / (z * os_), rng.choice([-1, 0, 1]) * big * duc / (z * os_)]
         per_seg = any(t != [0.0, 0.0] for t in segt)
         flags = []
         if mag == 'sub':
@@ -1102,6 +1178,12 @@ class TiltScenario(OpticsBase):
             q = b.E('Plane.fit_tilt', ['@' + pf], tag='q')
             b.E('check.fit', ['@' + pf, '@' + q], t={'segmented': k > 1, 'layout': lay}, tag='c')
             wq_pre, iq = image(q)
+            if k > 1:
+                # the same fields listed in the opposite order image identically (a field whose chip misses the output is skipped,
+                # the ones after it are not)
+                wrev = b.E('h.reversed_fields', ['@' + wq_pre], tag='w')
+                irev = b.E('propagate_dft', ['@' + wrev], dict(pk), t={'expect': 'ok'}, tag='w')
+                b.E('check.same_fields', ['@' + iq, '@' + irev], t={'far_segment': far_seg is not None}, tag='c')
             b.E('check.equiv', ['@' + iq, '@' + ie, '@' + wq_pre, '@' + we_pre], t=dict(base_t, carrier='fit', layout=lay), tag='c')
             if lay != 'C' and (rng.random() < 0.6 or force):
                 # the documented in-place form on a private plane whose OPD is a non-contiguous caller array
@@ -1207,6 +1289,18 @@ class TiltScenario(OpticsBase):
                        flags=flags + ['dispersive_' + ('blue' if dist * d1 < 0 else 'red'), 'dispersive_order:' + order]), tag='c')
             b.E('check.shift', ['@' + wpre_d, [['tilt', t[0], t[1]] for t in parts] + [['disp', tr, dp]], z, du, os_],
                 t={'n_elements': nel + 1, 'square': square, 'kinds': 'tilt+dispersive' + ('-high-order' if high else '')}, tag='c')
+            if rng.random() < 0.4 or force:
+                # the owner re-points the element (new coefficients of the same order) after it has been used: it then answers like a
+                # fresh element with those coefficients
+                tr2 = [c_ * rng.choice([0.5, 1.5, -1.0]) if j_ < len(tr) - 1 else c_ for j_, c_ in enumerate(tr)]
+                if tr2 == tr:
+                    tr2 = [c_ * 0.5 if j_ < len(tr) - 1 else c_ for j_, c_ in enumerate(tr)]
+                dsp2 = b.E('DispersiveTilt', None, {'trace': tr, 'dispersion': dp}, tag='d')
+                b.E('check.trace', ['@' + dsp2, ph['wl']], tag='c')
+                b.E('setattr', ['@' + dsp2, 'trace', {'$nd': tr2}], tag='s')
+                b.E('check.trace', ['@' + dsp2, ph['wl']], t={'after_update': True}, tag='c')
+                wdu = b.E('Plane.multiply', ['@' + dsp2, '@' + W0], t={'expect': 'ok'}, tag='w')
+                b.E('check.shift', ['@' + wdu, [['disp', tr2, dp]], z, du, os_], t={'n_elements': 1, 'square': square, 'kinds': 'dispersive-updated'}, tag='c')
         # ---- higher-order dispersive elements: only the trace clause
         if rng.random() < 0.15 or force.get('high_order'):
             off = rng.choice([3e-9, 5e-8, -3e-9, -5e-8])
@@ -1242,7 +1336,7 @@ class TiltScenario(OpticsBase):
         runs = []
         cases = [{'S': [7, 8], 'seg': True, 'square': True, 'mag': 'sub', 'nel': 3, 'os': 2, 'layout': 'F', 'disp_order': '2/1'},
                  {'S': [6, 9], 'seg': False, 'square': False, 'mag': 'small', 'nel': 2, 'os': 1, 'layout': 'strided', 'disp_order': '1/1', 'out_mask': True},
-                 {'S': [8, 8], 'seg': True, 'square': False, 'mag': 'medium', 'nel': 3, 'os': 3, 'layout': 'T', 'disp_order': '1/2', 'pupil_px': 'per-axis'},
+                 {'S': [8, 8], 'seg': True, 'square': False, 'mag': 'medium', 'nel': 3, 'os': 3, 'layout': 'T', 'disp_order': '1/2', 'pupil_px': 'per-axis', 'far_segment': True},
                  {'S': [5, 6], 'seg': False, 'square': True, 'mag': 'beyond', 'nel': 1, 'os': 1, 'layout': 'crop'},
                  {'S': [9, 7], 'seg': True, 'square': True, 'mag': 'small', 'nel': 3, 'os': 2, 'high_order': True, 'layout': 'crop', 'disp_order': '2/2'}]
         for j, force in enumerate(cases):
